@@ -46,6 +46,7 @@ func runC15(p *eng.Prog, r *eng.Report, tier string) {
 	waitBoundedByDeadline(c, "C15.18", "ibb", 1)
 	c15EveryPacketHandled(c, "C15.19")
 	c15RoutingEntryNotReplaced(c, "C15.20")
+	c15OnlyOwnRouteWithdrawn(c, "C15.21")
 	c15OpenRegistered(c)
 	c15BlockBounded(c)
 	// C15.2 the session id that selects the stream is the payload's own sid
@@ -1057,4 +1058,42 @@ func c15RoutingEntryNotReplaced(c *cx, id string) {
 		}
 	}
 	c.r.Floor(id, "stores into Handler.streams", n, 1)
+}
+
+// c15OnlyOwnRouteWithdrawn (C15.21 / C06.25): open withdraws a route only if it
+// registered one: every call of rmStream in ibb.open - and every defer
+// statement that installs a closure calling it - lies behind the edge on
+// which addStream reported success. A clean-up that also runs when the
+// session id was refused as in use removes the LIVE stream's route: its peer's
+// data and close get item-not-found and its reader never returns.
+func c15OnlyOwnRouteWithdrawn(c *cx, id string) {
+	f := c.fn(id, "ibb", "open")
+	if f == nil {
+		return
+	}
+	g := f.Graph()
+	n := 0
+	check := func(nd ast.Node, what string) {
+		n++
+		pt, ok := g.Where(nd)
+		if !ok {
+			c.r.Unresolved(id, what+" in ibb.open")
+			return
+		}
+		okd, why := g.DominatedAny(pt, []string{"ibb.Handler.addStream[*](*)"})
+		c.r.Check(id, f, what, "G: the route of a session id is withdrawn by open only on paths on which open registered it (addStream succeeded)", nd.Pos(), okd, why+": the refusal of an id that is in use removes the live stream's route")
+	}
+	for _, cl := range f.Calls("ibb.Handler.rmStream") {
+		check(cl, "rmStream")
+	}
+	for _, d := range g.Defers {
+		if l, ok := ast.Unparen(d.Call.Fun).(*ast.FuncLit); ok {
+			if lf := c.p.FnOfLit(l); lf != nil && len(lf.CallsDeep("ibb.Handler.rmStream")) > 0 {
+				check(d, "deferred rmStream")
+			}
+		} else if f.CalleeID(d.Call) == "ibb.Handler.rmStream" {
+			check(d, "deferred rmStream")
+		}
+	}
+	c.r.Floor(id, "withdrawals of a route in ibb.open", n, 1)
 }
